@@ -258,7 +258,8 @@ def judgeFt (q : List String) (a : List String) : Verdict :=
       let n := f.nLeaves
       let routes := splitRoutes a
       if routes.length != n then .disagree s!"{n}-routes-expected" else
-      -- hypothesis of the `fattree_*` theorems, evaluated on the construction of every zone (once per zone: first source)
+      -- hypothesis of the `fattree_*` theorems (proved for `f.build`: `fattree_build_wf`), re-evaluated on the construction of
+      -- every zone (once per zone: first source): a runtime cross-check, cheap
       if src == 0 && f.paramsOk && !(tb.wfCheck f) then .monfail "fat-tree-construction-not-well-formed (FTables.wfCheck)" else
       let mon := firstBad ((List.range n).zip routes |>.map (fun (d, r) => (d, ftMonitor f src d r)))
       match mon with
@@ -372,7 +373,8 @@ def judgeDf (q : List String) (a : List String) : Verdict :=
       let d : Dragonfly := ⟨g, c, r, n, lb, lim, sp == "S", uidOff⟩
       let routes := splitRoutes a
       if routes.length != d.tot then .disagree s!"{d.tot}-routes-expected" else
-      -- hypothesis of `dragonfly_hops_are_links`, evaluated on the tables of every zone (once per zone: first source)
+      -- `dragonfly_wiring` (proved for all shapes with G <= B) re-evaluated on the tables of every zone (once per zone: first
+      -- source): a runtime cross-check of `peer` against `genLinks`, cheap
       if src == 0 && decide (d.G ≤ d.B) && !d.wiringOk then .monfail "dragonfly-tables-not-wired-as-peer (Dragonfly.wiringOk)" else
       let mon := firstBad ((List.range d.tot).zip routes |>.map (fun (t, rt) => (t, dfMonitor d src t rt)))
       let bad := (List.range d.tot).zip routes |>.filter (fun (t, rt) =>
